@@ -96,7 +96,8 @@ class _RecordingMask:
 
 
 @functools.lru_cache(maxsize=None)
-def _mask_func(acc=4, cf=0.25):
+def _mask_func(acc=2, cf=0.34):      # (acceleration 4 / centre fraction 0.25 leaves no budget for random columns — ACS only, the
+    # same mask for every seed; 2 / 0.34 has at least one ACS column for every width >= 2 and random columns beside it)
     """(one instance per parameter pair: every call the pipeline makes is seeded or goes through `_FixedWhenUnseeded`, and a
     seeded call restores the generator's state — C05)"""
     from direct.common.subsample import build_masking_function
@@ -844,6 +845,25 @@ def observations() -> list[dict]:
             "is aligned with the coil axis: an error, or a silent mis-broadcast when batch size == number of coils",
             "build_mri_transforms(fft2, ifft2, mask, crop=(6, 4), padding_eps=0, delete_acs_mask=False)({'kspace': (2, 3, 8, 6) complex64, ...})",
             rank_of_3d_masks)
+    def coil_test_by_noise():
+        fl = {**default_flags(), "crop": 2, "pad": 1, "estimate_smaps": 0, "delete_acs": 0, "delete_kspace": 0, "recon": 0}
+        kk_ = _gauss_sample(378735690, 2, 0, 6, 7, 0, False)
+        res = []
+        for sc in (1.0, 7.48340206185567):
+            tr = build_real(fl, _mask_func(3, 0.15), *_ops(False), crop_shape=(5, 4), pad_shape=(7, 8), percentile=0.9)
+            o = run_real(tr, raw_sample((kk_ * np.float32(sc)).astype(np.complex64), crop_shape=(5, 4)))
+            res.append((float(o["scaling_factor"]), [float(v) for v in o["masked_kspace"].reshape(2, -1).sum(1)]))
+        (s0, c0), (s1, c1) = res
+        if abs(s1 / s0 / 7.48340206185567 - 1) > 1e-3:
+            raise RuntimeError(f"scaling_factor {s0:.6f} -> {s1:.6f} under scale 7.4834 (expected {s0 * 7.48340206185567:.6f}); per-coil sums of "
+                               f"the masked k-space: {c0} vs {c1}")
+    attempt("ComputeScalingFactor decides which coils are 'not padded' by `data[_].sum(...).bool()`.  With PadKspace and un-centred "
+            "FFT operators that sum is theoretically zero (the zero-padded image row 0), so the test is decided by float32 rounding "
+            "noise: under a non-dyadic scale a coil whose noise happens to be exactly 0.0 is dropped from the percentile and the "
+            "scaling factor (and every normalised output) jumps by ~10 %.  Minimal repair: test `(data[_] != 0).flatten(1).any(1)`",
+            "build_mri_transforms(fft2 uncentred, ifft2 uncentred, FastMRIRandom(3, 0.15), crop='reconstruction_size' (5, 4), pad=(7, 8), "
+            "scale_percentile=0.9, estimate_sensitivity_maps=False, image_recon_type='ifft') on RandomState(378735690) randn (2, 6, 7) vs 7.4834x",
+            coil_test_by_noise)
     zc = np.zeros((1, 4, 4), dtype=np.complex64)
     zc[0, :, 2] = [3, -3, 4j, -4j]
     attempt("ComputeScalingFactor's percentile branch tests `data[_].sum(...).bool()` to find non-padded coils: a coil whose entries "
@@ -1134,6 +1154,13 @@ def check_config(cfg, k: np.ndarray):
     # magnitude (the safe division guards exact zeros only): the map — and a SENSE target — is not stable under a
     # non-dyadic scale there (recorded observation); bit-exactness under 2^k is still required above
     unstable = {"sensitivity_map"} | ({"target"} if f["recon"] >= 4 else set()) if f["pad"] else set()
+    # with PadKspace and un-centred operators the per-coil sum of the k-space is *theoretically* zero (it is the zero-padded image
+    # row 0), so ComputeScalingFactor's `data[_].sum(...).bool()` test for non-padded coils is decided by rounding noise: a coil
+    # is dropped from the percentile whenever the noise is exactly 0.0, and the scaling factor jumps (recorded observation with a
+    # deterministic repro; PadKspace is outside the property's quantifier).  Dyadic scales are still compared bit-exactly.
+    noise_decided = bool(f["pad"] and f["percentile"] and not cfg.get("centered", True))
+    if noise_decided:
+        unstable = set(NORMALISED)
     for kk in NORMALISED:
         if kk in unstable:
             continue
@@ -1142,7 +1169,7 @@ def check_config(cfg, k: np.ndarray):
                 yield Violation("equivariance-real-" + kk, f"`{kk}` changes under scaling by {sc}",
                                 {**rep, "scale": sc, "key": kk})
     s0, s1 = float(base["scaling_factor"]), float(o["scaling_factor"])
-    if not abs(s1 - s0 * sc) <= 1e-4 * abs(s0 * sc):
+    if not noise_decided and not abs(s1 - s0 * sc) <= 1e-4 * abs(s0 * sc):
         yield Violation("scaling-factor-real", f"scaling_factor {s0} -> {s1} under scale {sc}",
                         {**rep, "scale": sc, "expected": s0 * sc, "observed": s1})
     # (ii)/(iii) self-consistency, with the normalised fully sampled k-space kept in the sample
@@ -1544,8 +1571,9 @@ def check_same_filename(cfg):
                             {"op": "same_filename", **cfg, "slice": sl, "differing_positions": int(diff.sum())})
 
 
-def _same_outputs(a: dict, b: dict, what: str, rep: dict, key: str, exact=True):
-    """key sets and every tensor entry equal"""
+def _same_outputs(a: dict, b: dict, what: str, rep: dict, key: str, exact=True, rel=1e-4):
+    """key sets and every tensor entry equal (`exact=False`: to rounding — a differently laid out input takes another FFT
+    path, and normalised outputs amplify that at low-signal pixels, as under a non-dyadic scale)"""
     ka, kb = sorted(str.__str__(x) for x in a), sorted(str.__str__(x) for x in b)
     if ka != kb:
         yield Violation(key + "-keys", f"{what}: key sets differ ({sorted(set(ka) ^ set(kb))})", rep)
@@ -1556,7 +1584,7 @@ def _same_outputs(a: dict, b: dict, what: str, rep: dict, key: str, exact=True):
         w = bb[kk]
         if isinstance(v, torch.Tensor):
             ok = isinstance(w, torch.Tensor) and v.shape == w.shape and v.dtype == w.dtype and (
-                torch.equal(v, w) if exact or v.dtype == torch.bool else _close(v, w, 1e-6))
+                torch.equal(v, w) if exact or v.dtype == torch.bool else _close(v, w, rel))
             if not ok:
                 yield Violation(key + "-" + kk, f"{what}: `{kk}` differs", {**rep, "key": kk})
 
@@ -1569,14 +1597,15 @@ def check_history(cfg):
     f = cfg["flags"]
     nc, h, w = cfg["shape"]
     rep = {"op": "history", **cfg}
-    ks = {("hist_a.h5", 0): _gauss_sample(cfg["seed"], nc, 0, h, w, 0, False), ("hist_a.h5", 1): _gauss_sample(cfg["seed"] + 1, nc, 0, h, w, 0, False),
-          ("hist_b.h5", 0): _gauss_sample(cfg["seed"] + 2, nc, 0, h, w, 0, False)}
+    # (a border far below the relative threshold: the zero-padding stage is not the identity)
+    ks = {("hist_a.h5", 0): _gauss_sample(cfg["seed"], nc, 0, h, w, 2, False), ("hist_a.h5", 1): _gauss_sample(cfg["seed"] + 1, nc, 0, h, w, 2, False),
+          ("hist_b.h5", 0): _gauss_sample(cfg["seed"] + 2, nc, 0, h, w, 2, False)}
     seq = [("hist_a.h5", 0, 1.0), ("hist_b.h5", 0, 1.0), ("hist_a.h5", 1, 8.0), ("hist_a.h5", 0, 1.0), ("hist_b.h5", 0, 0.125)]
     tr = _build_for(cfg)
     for step, (name, sl, scale) in enumerate(seq):
         k = (ks[(name, sl)] * np.float32(scale)).astype(np.complex64)
         keep = k.copy()
-        got = run_real(tr, raw_sample(k, filename=name, slice_no=sl))
+        got = run_real(tr, {"kspace": k, "filename": name, "slice_no": sl})      # the array itself, not a copy
         if not np.array_equal(k.view(np.float32), keep.view(np.float32)):
             yield Violation("raw-input-modified", f"the raw k-space array handed to the transform is modified in place (call {step})",
                             {**rep, "step": step})
